@@ -10,7 +10,7 @@ head=$(git -C /repo rev-parse HEAD)
 tmp=$(mktemp -d /tmp/parmatrix.XXXX)
 i=0
 for p in "$@"; do echo "$(realpath $p)" >> $tmp/list.$((i % lanes)); i=$((i+1)); done
-ids=$(python3 -c "import json;print(' '.join(c['property_id'] for c in json.load(open('/verif/MANIFEST.json'))['checks']))")
+ids=${CHECK_IDS:-$(python3 -c "import json;print(' '.join(c['property_id'] for c in json.load(open('/verif/MANIFEST.json'))['checks']))")}   # CHECK_IDS="C04 C07": only these
 lane() {
   k=$1
   wt=/tmp/wt/lane$k
